@@ -35,7 +35,7 @@ Inductive ntype := NBool | NDouble | NFloat | NInt64 | NInt32 | NInt16 | NInt8 |
 (* which class a numeric filter object is: NumericQueryFilter<T,..> or its subclass ChildCountQueryFilter *)
 Inductive nkind := KNum (t : ntype) | KChildCount.
 
-Inductive filter : Type :=
+Inductive qfilter : Type :=
 | FWhat (mn mx : N)                                                        (* WhatCodeQueryFilter *)
 | FExists (name : bytes) (idx : N) (tc : N)                                (* ValueExistsQueryFilter *)
 | FNum (k : nkind) (name : bytes) (idx : N) (op mop : N) (val msk : bytes) (def : option bytes)
@@ -47,12 +47,12 @@ Inductive filter : Type :=
 | FXor (kids : flist)                                                      (* XorQueryFilter *)
 with flist : Type :=
 | LNil
-| LCons (f : filter) (tl : flist)
+| LCons (f : qfilter) (tl : flist)
 with ofilter : Type :=
 | ONone
-| OSome (f : filter).
+| OSome (f : qfilter).
 
-Scheme filter_mi := Induction for filter Sort Prop
+Scheme filter_mi := Induction for qfilter Sort Prop
   with flist_mi := Induction for flist Sort Prop
   with ofilter_mi := Induction for ofilter Sort Prop.
 Combined Scheme filter_mutind from filter_mi, flist_mi, ofilter_mi.
@@ -63,16 +63,16 @@ Fixpoint flist_len (l : flist) : N :=
 Fixpoint flist_app (a b : flist) : flist :=
   match a with LNil => b | LCons f t => LCons f (flist_app t b) end.
 
-Fixpoint flist_of (l : list filter) : flist :=
+Fixpoint flist_of (l : list qfilter) : flist :=
   match l with [] => LNil | f :: t => LCons f (flist_of t) end.
-Fixpoint list_of_flist (l : flist) : list filter :=
+Fixpoint list_of_flist (l : flist) : list qfilter :=
   match l with LNil => [] | LCons f t => f :: list_of_flist t end.
 
 (* the convenience subclasses *)
-Definition FAnd (kids : flist) : filter := FMin c_MUSCLE_NO_LIMIT kids.
-Definition FOr (kids : flist) : filter := FMin 0 kids.
-Definition FNand (kids : flist) : filter := FMax c_MUSCLE_NO_LIMIT kids.
-Definition FNor (kids : flist) : filter := FMax 0 kids.
+Definition FAnd (kids : flist) : qfilter := FMin c_MUSCLE_NO_LIMIT kids.
+Definition FOr (kids : flist) : qfilter := FMin 0 kids.
+Definition FNand (kids : flist) : qfilter := FMax c_MUSCLE_NO_LIMIT kids.
+Definition FNor (kids : flist) : qfilter := FMax 0 kids.
 
 (* DataTypeCode / ClassTypeCode / sizeof(DataType) of the NumericQueryFilter typedefs *)
 Definition nt_tc (t : ntype) : N :=
@@ -418,7 +418,7 @@ Section Eval.
 
   Definition thr_threshold (n numKids : N) : N := N.min n (numKids - 1).
 
-  Fixpoint eval (node : nodeinfo) (f : filter) (m : msg) {struct f} : bool :=
+  Fixpoint eval (node : nodeinfo) (f : qfilter) (m : msg) {struct f} : bool :=
     match f with
     | FWhat mn mx => (mn <=? msg_what m) && (msg_what m <=? mx)            (* muscleInRange(what, min, max) *)
     | FExists name idx tc => exists_data m name tc idx
